@@ -155,11 +155,11 @@ Section Priorized.
     mkComp inum j (s_uuid s)
            (Z.lor (Z.lor (Z.lor isflags (c_flags c)) flag_PRIORIZED) (if copy_pos_err stage then flag_FIXED2PSF else 0%Z))
            ra (snd sky) (c_amp c) a b' (pa_limit pa)
-           (if copy_pos_err stage then s_err_ra s else f_err_ra f)
-           (if copy_pos_err stage then s_err_dec s else f_err_dec f)
-           (if copy_shape_err stage then s_err_a s else f_err_a f)
-           (if copy_shape_err stage then s_err_b s else f_err_b f)
-           (if copy_shape_err stage then s_err_pa s else f_err_pa f)
+           (if copy_pos_err stage then copied_err (s_err_ra s) else f_err_ra f)
+           (if copy_pos_err stage then copied_err (s_err_dec s) else f_err_dec f)
+           (if copy_shape_err stage then copied_err (s_err_a s) else f_err_a f)
+           (if copy_shape_err stage then copied_err (s_err_b s) else f_err_b f)
+           (if copy_shape_err stage then copied_err (s_err_pa s) else f_err_pa f)
            xp yp.
 
   Definition island_out (stage inum : Z) (isle : list src) : list comp :=
